@@ -1,0 +1,154 @@
+//go:build verif
+
+// Contracts for the deductive checker in /verif (comment-only; compiled only with -tags verif).
+// C15: decoding a byte string as a data packet is total (error or a packet on which every
+// accessor is safe), never panics, and consumes no more bytes than the header declares.
+
+package packets
+
+// consumed: number of bytes requested from the reader so far (ghost).
+//@ ghost var consumed mathint
+
+//@ extern func io.ReadFull
+//@   ensures err == nil ==> n == len(buf)
+//@   ensures consumed == old(consumed) + n && 0 <= n && n <= len(buf)
+//@   modifies consumed, buf[*]
+//@ extern func io.CopyN
+//@   ensures err == nil ==> written == n
+//@   ensures consumed == old(consumed) + written && 0 <= written && (n >= 0 ==> written <= n)
+//@   modifies consumed
+//@ extern func encoding/binary.Read
+//@   ensures consumed <= old(consumed) + len(unbox(data, "[]byte")) && consumed >= old(consumed)
+//@   modifies consumed, unbox(data, "[]byte")[*]
+//@ extern func (encoding/binary.bigEndian).Uint16
+//@   pure
+//@   requires len(b) >= 2
+//@ extern func (encoding/binary.bigEndian).Uint32
+//@   pure
+//@   requires len(b) >= 4
+//@ extern func (encoding/binary.bigEndian).Uint64
+//@   pure
+//@   requires len(b) >= 8
+//@ extern func math.Pow10
+//@   pure
+
+// ---- accessors: safe on every packet ----
+//@ func (*Packet).Length
+//@   props C15
+//@   ensures result == p.packetLength
+//@   modifies nothing
+//@ func (*Packet).Frames
+//@   props C15
+//@   ensures result >= 0 || p.format != nil
+//@   modifies nothing
+//@   loop 1
+//@     invariant -1 <= rangeindex && rangeindex <= len(p.shape.Sizes) - 1 && p.shape != nil
+//@ func (*Packet).ChannelInfo
+//@   props C15
+//@   ensures offset == p.offset
+//@   modifies nothing
+//@   loop 1
+//@     invariant -1 <= rangeindex && p.shape != nil && rangeindex <= len(p.shape.Sizes) - 1
+//@ func (*Packet).Timestamp
+//@   props C15
+//@   ensures (p.timestamp == nil ==> result == nil) && (p.timestamp != nil ==> result != nil && fresh(result) && result.T == p.timestamp.T)
+//@   modifies nothing
+//@ func (*Packet).IsExternalTrigger
+//@   props C15
+//@   modifies nothing
+//@ func (*Packet).SequenceNumber
+//@   props C15
+//@   ensures result == p.sequenceNumber
+//@   modifies nothing
+//@ func (*Packet).ReadValue
+//@   props C15
+//@   requires DataOK(p)
+//@   modifies nothing
+//@ func (*Packet).MakePretendPacket
+//@   props C15 C03
+//@   requires nchan > 0 && DataOK(p)
+//@   ensures result != nil && fresh(result) && result.sequenceNumber == seqnum && result.payloadLength == p.payloadLength && result.shape == p.shape && result.format == p.format && result.packetLength == p.packetLength
+//@   ensures DataOK(result) && result.Data.typ == p.Data.typ
+//@   modifies nothing
+//@   loop 1
+//@     invariant -1 <= rangeindex && rangeindex <= len(d) - 1 && len(x) == len(d) && fresh(x) && allocated(d)
+//@     modifies x[*]
+//@   loop 2
+//@     invariant -1 <= rangeindex && rangeindex <= len(d) - 1 && len(x) == len(d) && fresh(x) && allocated(d)
+//@     modifies x[*]
+//@   loop 3
+//@     invariant -1 <= rangeindex && rangeindex <= len(d) - 1 && len(x) == len(d) && fresh(x) && allocated(d)
+//@     modifies x[*]
+
+// DataOK: the payload, when it is one of the integer slice types, is a well-formed slice.
+//@ pred DataOK(p *Packet) := (typeis(p.Data, "[]int16") ==> allocated(unbox(p.Data, "[]int16"))) && (typeis(p.Data, "[]int32") ==> allocated(unbox(p.Data, "[]int32"))) && (typeis(p.Data, "[]int64") ==> allocated(unbox(p.Data, "[]int64")))
+
+// ---- decoder ----
+//@ func (*headPayloadFormat).addDataComponent
+//@   props C15
+//@   requires allocated(h.dtype)
+//@   ensures result == nil && h.wordlen == old(h.wordlen) + nb && h.nvals == old(h.nvals) + 1 && len(h.dtype) == old(len(h.dtype)) + 1
+//@   ensures allocated(h.dtype) && (h.dtype.arr == old(h.dtype.arr) || fresh(h.dtype))
+//@   modifies h.dtype, h.dtype[*], h.nvals, h.wordlen
+//@ func MakeTimestamp
+//@   props C15
+//@   ensures result != nil && fresh(result)
+
+// parseTLV never indexes outside data and, on success, has consumed all of it in whole TLVs.
+//@ func parseTLV
+//@   props C15
+//@   requires allocated(data)
+//@   modifies nothing
+//@   loop 1
+//@     invariant bytesRemaining == len(data) && allocated(data) && (result.arr == 0 || fresh(result)) && allocated(result)
+//@   loop 2
+//@     invariant bytesRemaining == len(data) && allocated(data) && 8 <= tlvsize && tlvsize <= bytesRemaining && pfmt != nil && fresh(pfmt) && (pfmt.dtype.arr == 0 || fresh(pfmt.dtype)) && allocated(pfmt.dtype) && (result.arr == 0 || fresh(result)) && allocated(result)
+//@   loop 3
+//@     invariant bytesRemaining == len(data) && allocated(data) && 8 <= tlvsize && tlvsize <= bytesRemaining && 2 <= i && i % 2 == 0 && tlvsize % 2 == 0 && shape != nil && fresh(shape) && (shape.Sizes.arr == 0 || fresh(shape.Sizes)) && allocated(shape.Sizes) && (result.arr == 0 || fresh(result)) && allocated(result)
+
+//@ func byteSwap2
+//@   props C15
+//@   requires allocated(b) && (nb == 2 ==> len(b) % 2 == 0) && (nb == 4 ==> len(b) % 4 == 0) && (nb == 8 ==> len(b) % 8 == 0)
+//@   modifies b[*]
+//@   loop 1
+//@     invariant 0 <= i && i % 2 == 0 && nb == 2
+//@   loop 2
+//@     invariant 0 <= i && i % 4 == 0 && nb == 4
+//@   loop 3
+//@     invariant 0 <= i && i % 8 == 0 && nb == 8
+
+//@ func ByteSwap
+//@   props C15
+//@   requires (typeis(vectorIn, "[]int16") ==> allocated(unbox(vectorIn, "[]int16"))) && (typeis(vectorIn, "[]int32") ==> allocated(unbox(vectorIn, "[]int32"))) && (typeis(vectorIn, "[]int64") ==> allocated(unbox(vectorIn, "[]int64")))
+//@        && (typeis(vectorIn, "[]uint16") ==> allocated(unbox(vectorIn, "[]uint16"))) && (typeis(vectorIn, "[]uint32") ==> allocated(unbox(vectorIn, "[]uint32"))) && (typeis(vectorIn, "[]uint64") ==> allocated(unbox(vectorIn, "[]uint64")))
+//@   modifies anyarray(byte)
+
+// ReadPacket: total (error or packet), never panics, consumes at most header + payload bytes.
+//@ func ReadPacket
+//@   props C15
+//@   ensures total: err != nil || p != nil
+//@   ensures bounded: consumed >= old(consumed) && (err == nil ==> consumed <= old(consumed) + p.headerLength + p.payloadLength && p.packetLength == p.headerLength + p.payloadLength && p.headerLength >= 16)
+//@   ensures data: err == nil ==> DataOK(p)
+//@   modifies consumed, anyarray(byte)
+//@   loop 1
+//@     invariant -1 <= rangeindex && rangeindex <= len(allTLV) - 1 && p != nil && fresh(p) && allocated(allTLV) && (p.otherTLV.arr == 0 || fresh(p.otherTLV)) && allocated(p.otherTLV)
+//@     invariant count: consumed <= old(consumed) + p.headerLength && consumed >= old(consumed) && p.headerLength >= 16 && p.packetLength == p.headerLength + p.payloadLength
+
+//@ func ReadPacketPlusPad
+//@   props C15
+//@   requires stride > 0
+//@   ensures total: err != nil || p != nil
+//@   modifies consumed, anyarray(byte)
+
+// NewData: sizes recorded in the packet are mutually consistent (no silent wrap of the length field).
+//@ func (*Packet).NewData
+//@   props C15
+//@   requires allocated(dims) && (typeis(data, "[]int16") ==> allocated(unbox(data, "[]int16"))) && (typeis(data, "[]int32") ==> allocated(unbox(data, "[]int32"))) && (typeis(data, "[]int64") ==> allocated(unbox(data, "[]int64")))
+//@   ensures consistent: result == nil ==> p.format != nil && p.shape != nil && p.packetLength == p.headerLength + p.payloadLength && p.packetLength <= 8192
+//@        && (typeis(data, "[]int16") ==> p.payloadLength == 2 * len(unbox(data, "[]int16"))) && (typeis(data, "[]int32") ==> p.payloadLength == 4 * len(unbox(data, "[]int32"))) && (typeis(data, "[]int64") ==> p.payloadLength == 8 * len(unbox(data, "[]int64")))
+//@   modifies p.headerLength, p.payloadLength, p.Data, p.format, p.shape, p.packetLength, p.sequenceNumber
+//@   loop 1
+//@     invariant 0 <= i && i <= ndim && ndim == len(dims) && p.shape != nil && fresh(p.shape) && len(p.shape.Sizes) == max(1, ndim) && fresh(p.shape.Sizes) && pfmt != nil && fresh(pfmt) && p.format == pfmt && allocated(dims)
+//@     modifies p.shape.Sizes[*]
+
+//@ bounded C15 TestVerifBoundedRoundTrip : encode/decode round trip of constructible packets (payload types int16/int32/int64, 1..3 dims, 0..8 samples, timestamp on/off, channel offsets, sequence numbers) on the real Bytes/ReadPacket; the encoder uses encoding/binary and reflection and is outside the verifiable subset (bounded, not proved)
